@@ -69,6 +69,10 @@ class GridRun:
             if op == '@raw':
                 out.append(args)
                 continue
+            if op == '@feed':
+                ev = Ev(model)
+                out.append(['feed_cps', [ev.int(c) for c in args]])
+                continue
             a = [jarg(model, x) for x in args]
             if op in DROP_LAST:
                 a = a[:-1]
@@ -270,3 +274,24 @@ GEOMS_THOROUGH = GEOMS_QUICK + [(4, 3), (3, 4), (5, 1), (1, 4)]
 
 def geoms(tier):
     return GEOMS_QUICK if tier == 'quick' else GEOMS_THOROUGH
+
+
+def feed_csi(run, ctx, final, ndigits, tag='d'):
+    """Feed `CSI <ndigits symbolic decimal digits> final` through Parser<Screen> of a GridRun.
+    Returns the parameter the recogniser delivers as (True, 32-bit term) -- 0 when no digit was sent."""
+    ds = []
+    for i in range(ndigits):
+        d = ctx.bvvar('%s%d' % (tag, i), 32)
+        ctx.assume(z3.And(z3.UGE(d, 48), z3.ULE(d, 57)))
+        ds.append(d)
+    chars = [0x9b] + ds + [ord(final)]
+    run.calls.append(('@feed', chars))
+    try:
+        run.ses.feed(Str(tuple(chars)))
+        run.mid.append(run.ses.screen)
+    except Panic as e:
+        run.outcome, run.msg = 'panic', str(e)
+    v = z3.BitVecVal(0, 32)
+    for d in ds:
+        v = v * 10 + (d - 48)
+    return (True, Int('u32', v))
